@@ -13,7 +13,7 @@ one function of /repo as coded:
 * `Split.*`, `parseSqlStatements`  — persistence/load.rs `parse_sql_statements`
 * `Lit.*`                          — `sql_value_to_literal` → parser `parse_literal` / unary sign →
                                       insert/defaults.rs → insert/validation.rs `coerce_value`
-* `Csv.*`                          — data_io.rs `escape_csv_value`, `write_csv_row`, `import_csv`,
+* `Csv.*`                          — data_io.rs `escape_csv_value`, `write_csv_row`, `parse_csv_records`, `import_csv`,
                                       `import_json` (after serde has parsed the file)
 * `Bind.*`                         — conversions.rs `substitute_placeholders`, `py_to_sqlvalue`,
                                       cursor.rs `bind_parameters` and the statement cache of `execute`
@@ -390,7 +390,8 @@ end Lit
 namespace Csv
 
 /-- `escape_csv_value` -/
-def needsQuote (v : Str) : Bool := v.any (· = ',') || v.any (· = '"') || v.any (· = '\n')
+def needsQuote (v : Str) : Bool :=
+  v.any (· = ',') || v.any (· = '"') || v.any (· = '\n') || v.any (· = '\r')
 
 def escape (v : Str) : Str := if needsQuote v then '"' :: (dbl '"' v ++ ['"']) else v
 
@@ -406,7 +407,7 @@ def writeRow (cells : List Str) : Str := joinCells cells ++ ['\n']
 /-- `export_csv`: header then rows -/
 def writeCsv (rows : List (List Str)) : Str := (rows.map writeRow).flatten
 
-/-! ### Reference reader (RFC 4180 quoting, records end with LF as the writer emits them) -/
+/-! ### The reader: `parse_csv_records` (RFC 4180 quoting, records end with LF or CRLF) -/
 
 inductive RErr where
   | badQuote          -- a quote inside an unquoted field, or text after a closing quote
@@ -418,13 +419,14 @@ inductive RMode where
   | unq (acc : Str)         -- reversed
   | quoted (acc : Str)
   | quoteSeen (acc : Str)
+  | crAfterQuote (acc : Str)
   deriving DecidableEq, Repr
 
 structure RSt where
   rows : List (List Str)    -- finished records, most recent first
   cells : List Str          -- finished cells of the current record, most recent first
   mode : RMode
-  fresh : Bool              -- nothing of the current record has been read yet
+  fresh : Bool              -- nothing of the current record has been read yet (`!in_record`)
   deriving DecidableEq, Repr
 
 def endCell (st : RSt) (cell : Str) : RSt :=
@@ -432,6 +434,12 @@ def endCell (st : RSt) (cell : Str) : RSt :=
 
 def endRow (st : RSt) (cell : Str) : RSt :=
   { rows := (cell :: st.cells).reverse :: st.rows, cells := [], mode := .fieldStart, fresh := true }
+
+/-- `if field.ends_with('\r') { field.pop() }` on the reversed field -/
+def stripCr (revField : Str) : Str :=
+  match revField with
+  | '\r' :: rest => rest
+  | l => l
 
 def rStep (st : RSt) (c : Char) : Except RErr RSt :=
   match st.mode with
@@ -443,7 +451,7 @@ def rStep (st : RSt) (c : Char) : Except RErr RSt :=
   | .unq acc =>
     if c = '"' then .error .badQuote
     else if c = ',' then .ok (endCell st acc.reverse)
-    else if c = '\n' then .ok (endRow st acc.reverse)
+    else if c = '\n' then .ok (endRow st (stripCr acc).reverse)
     else .ok { st with mode := .unq (c :: acc) }
   | .quoted acc =>
     if c = '"' then .ok { st with mode := .quoteSeen acc }
@@ -452,7 +460,10 @@ def rStep (st : RSt) (c : Char) : Except RErr RSt :=
     if c = '"' then .ok { st with mode := .quoted ('"' :: acc) }
     else if c = ',' then .ok (endCell st acc.reverse)
     else if c = '\n' then .ok (endRow st acc.reverse)
+    else if c = '\r' then .ok { st with mode := .crAfterQuote acc }
     else .error .badQuote
+  | .crAfterQuote acc =>
+    if c = '\n' then .ok (endRow st acc.reverse) else .error .badQuote
 
 def rRun : RSt → Str → Except RErr RSt
   | st, [] => .ok st
@@ -461,41 +472,24 @@ def rRun : RSt → Str → Except RErr RSt
     | .ok st' => rRun st' cs
     | .error e => .error e
 
+/-- "Last record without a final line break" -/
 def rFinish (st : RSt) : Except RErr (List (List Str)) :=
   match st.mode with
+  | .quoted _ => .error .unterminated
   | .fieldStart => if st.fresh then .ok st.rows.reverse else .ok (endRow st []).rows.reverse
   | .unq acc => .ok (endRow st acc.reverse).rows.reverse
-  | .quoted _ => .error .unterminated
   | .quoteSeen acc => .ok (endRow st acc.reverse).rows.reverse
+  | .crAfterQuote acc => .ok (endRow st acc.reverse).rows.reverse
 
 def rInit : RSt := { rows := [], cells := [], mode := .fieldStart, fresh := true }
 
-/-- the reference reader -/
+/-- `parse_csv_records` -/
 def parseCsv (text : Str) : Except RErr (List (List Str)) :=
   match rRun rInit text with
   | .ok st => rFinish st
   | .error e => .error e
 
-/-! ### The reader as coded (`import_csv`) -/
-
-/-- `s.split(sep)`; `cur` is the current piece, reversed -/
-def splitOnAux (sep : Char) (cur : Str) : Str → List Str
-  | [] => [cur.reverse]
-  | c :: cs => if c = sep then cur.reverse :: splitOnAux sep [] cs else splitOnAux sep (c :: cur) cs
-
-def splitOn (sep : Char) (s : Str) : List Str := splitOnAux sep [] s
-
-def stripCr (revLine : Str) : Str :=
-  match revLine with
-  | '\r' :: rest => rest
-  | l => l
-
-/-- `BufRead::lines`: pieces end at '\n' (a preceding '\r' is dropped); no empty last line -/
-def linesAux (cur : Str) : Str → List Str
-  | [] => if cur.isEmpty then [] else [cur.reverse]
-  | c :: cs => if c = '\n' then (stripCr cur).reverse :: linesAux [] cs else linesAux (c :: cur) cs
-
-def lines (s : Str) : List Str := linesAux [] s
+/-! ### `import_csv` -/
 
 /-- `items.join(", ")` -/
 def joinComma : List Str → Str
@@ -503,8 +497,8 @@ def joinComma : List Str → Str
   | [c] => c
   | c :: cs => c ++ ',' :: ' ' :: joinComma cs
 
-/-- `format!("'{}'", v.trim().replace("'", "''"))` -/
-def quoteCell (v : Str) : Str := renderStr (trim v)
+/-- `format!("'{}'", v.replace("'", "''"))` -/
+def quoteCell (v : Str) : Str := renderStr v
 
 /-- `format!("INSERT INTO {} ({}) VALUES ({});", table, cols, vals)` -/
 def insertText (table : Str) (cols : List Str) (vals : List Str) : Str :=
@@ -514,12 +508,12 @@ def insertText (table : Str) (cols : List Str) (vals : List Str) : Str :=
 inductive IErr where
   | empty
   | columnCount (line : Nat)
+  | malformed (e : RErr)
   deriving DecidableEq, Repr
 
-def importRows (table : Str) (cols : List Str) : Nat → List Str → Except IErr (List Str)
+def importRows (table : Str) (cols : List Str) : Nat → List (List Str) → Except IErr (List Str)
   | _, [] => .ok []
-  | n, l :: ls =>
-    let values := splitOn ',' l
+  | n, values :: ls =>
     if values.length ≠ cols.length then .error (.columnCount n)
     else
       match importRows table cols (n + 1) ls with
@@ -528,21 +522,24 @@ def importRows (table : Str) (cols : List Str) : Nat → List Str → Except IEr
 
 /-- `DataIO::import_csv`: the INSERT statement texts -/
 def importCsv (table : Str) (text : Str) : Except IErr (List Str) :=
-  match lines text with
-  | [] => .error .empty
-  | h :: ls => importRows table (splitOn ',' h) 2 ls
+  match parseCsv text with
+  | .error e => .error (.malformed e)
+  | .ok [] => .error .empty
+  | .ok (h :: ls) => importRows table h 2 ls
 
 /-- the statements a faithful import of `rows` produces for the same header -/
 def insertsOf (table : Str) (header : List Str) (rows : List (List Str)) : List Str :=
   rows.map (fun r => insertText table header (r.map renderStr))
 
-/-! ### JSON import, after parsing: each object is a list of (key, value-as-text, isJsonString) -/
+/-! ### JSON import, after parsing: each object is a list of (key, value); a value is `none`
+for JSON null and otherwise the text `import_json` derives from it -/
 
-/-- `import_json`'s value rendering: the text `NULL` is written bare whatever its JSON type -/
-def jsonCell (valueText : Str) : Str :=
-  if valueText = "NULL".toList then valueText else renderStr valueText
+/-- `import_json`'s value rendering: only JSON null is NULL, everything else a string literal -/
+def jsonCell : Option Str → Str
+  | none => "NULL".toList
+  | some t => renderStr t
 
-def importJsonObj (table : Str) (obj : List (Str × Str)) : Str :=
+def importJsonObj (table : Str) (obj : List (Str × Option Str)) : Str :=
   insertText table (obj.map (·.1)) (obj.map (fun kv => jsonCell kv.2))
 
 /-- `validate_json_columns` / `validate_csv_columns`: the character test on a column name -/
@@ -565,8 +562,6 @@ namespace Bind
 /-- a bound value after `py_to_sqlvalue`, reduced to how it is printed -/
 inductive PVal where
   | num (neg : Bool) (body : Str)     -- integer or finite float: optional '-' then digits / '.'
-  | word (w : Str)                    -- `NaN`, `inf` (printed bare)
-  | negWord (w : Str)                 -- `-inf`
   | str (s : Str)
   | bool (b : Bool)
   | null
@@ -574,23 +569,49 @@ inductive PVal where
 
 def renderVal : PVal → Str
   | .num neg body => if neg then '-' :: body else body
-  | .word w => w
-  | .negWord w => '-' :: w
   | .str s => renderStr s
   | .bool b => if b then "TRUE".toList else "FALSE".toList
   | .null => "NULL".toList
 
-/-- `substitute_placeholders`: every `?` is replaced while parameters remain, wherever it stands -/
-def substitute : Str → List PVal → Str
-  | [], _ => []
-  | c :: cs, vs =>
-    if c = '?' then
-      match vs with
-      | v :: vs' => renderVal v ++ substitute cs vs'
-      | [] => substitute cs []
-    else c :: substitute cs vs
+/-- `ScanState::next`: the lexical state after reading `c`.  (`Mode` also carries the text of a
+quoted token, which the Rust state does not need.) -/
+def codeNext (c : Char) : Mode :=
+  if isQuote c then .inq c [] else if c = '-' then .dash else .norm
 
-def countQ (s : Str) : Nat := (s.filter (· = '?')).length
+def nextMode : Mode → Char → Mode
+  | .inq q acc, c => if c = q then .qq q acc else .inq q (c :: acc)
+  | .qq q acc, c => if c = q then .inq q (q :: acc) else codeNext c
+  | .comment, c => if c = '\n' then .norm else .comment
+  | .dash, c => if c = '-' then .comment else codeNext c
+  | .norm, c => codeNext c
+
+/-- `ScanState::placeholder_allowed` -/
+def placeholderAllowed : Mode → Bool
+  | .inq _ _ => false
+  | .comment => false
+  | _ => true
+
+/-- `count_placeholders` -/
+def countGo : Mode → Str → Nat
+  | _, [] => 0
+  | m, c :: cs =>
+    if c = '?' && placeholderAllowed m then countGo .norm cs + 1 else countGo (nextMode m c) cs
+
+def countQ (s : Str) : Nat := countGo .norm s
+
+/-- `substitute_placeholders`: a `?` outside string literals, delimited identifiers and comments is
+replaced by the literal of the next value with a blank on either side (dropped when no value is
+left); everything else is copied -/
+def substGo : Mode → Str → List PVal → Str
+  | _, [], _ => []
+  | m, c :: cs, vs =>
+    if c = '?' && placeholderAllowed m then
+      match vs with
+      | v :: vs' => ' ' :: (renderVal v ++ ' ' :: substGo .norm cs vs')
+      | [] => substGo .norm cs []
+    else c :: substGo (nextMode m c) cs vs
+
+def substitute (sql : Str) (vs : List PVal) : Str := substGo .norm sql vs
 
 inductive BErr where
   | paramCount
@@ -605,8 +626,6 @@ def bind (sql : Str) : Option (List PVal) → Except BErr Str
 /-- pieces of the bound values, for the structure theorem -/
 def valPieces : PVal → List Piece
   | .num neg body => (if neg then [Piece.ch '-'] else []) ++ body.map Piece.ch
-  | .word w => w.map Piece.ch
-  | .negWord w => Piece.ch '-' :: w.map Piece.ch
   | .str s => [Piece.str s]
   | .bool b => (if b then "TRUE".toList else "FALSE".toList).map Piece.ch
   | .null => "NULL".toList.map Piece.ch
@@ -618,8 +637,7 @@ def fill : List Piece → List PVal → List Piece
   | .hole :: ps, [] => fill ps []
   | p :: ps, vs => p :: fill ps vs
 
-
-/-! ### Side conditions of the structure theorem (C30-T2), as computable predicates -/
+/-! ### Notions used by the structure theorem (C30-T2) -/
 
 /-- modes in which a `?` stands in code position -/
 def codeMode : Mode → Bool
@@ -646,42 +664,14 @@ def plainCode (c : Char) : Bool := !isQuote c && c ≠ '-' && !isWs c
 
 def plainRun (w : Str) : Bool := w.all (fun c => plainCode c && c ≠ '?')
 
-/-- well-formed bound values: numbers and bare words are non-empty runs of plain characters -/
+/-- well-formed bound values: a number is a non-empty run of plain characters (digits, '.') -/
 def PVal.wf : PVal → Bool
   | .num _ body => !body.isEmpty && plainRun body
-  | .word w => !w.isEmpty && plainRun w
-  | .negWord w => !w.isEmpty && plainRun w
   | _ => true
 
 def isStrVal : PVal → Bool
   | .str _ => true
   | _ => false
-
-/-- the first character of the value's text does not continue the token pending in mode `m`
-(a `-` after `-` would start a comment, a quote after a closing quote would double it) -/
-def headOk (m : Mode) (v : PVal) : Bool :=
-  match renderVal v with
-  | [] => false
-  | c :: _ => leaves m c
-
-/-- a string value must not be followed directly by a quote -/
-def tailOk (v : PVal) (T : Str) : Bool :=
-  !isStrVal v || (match T with | [] => true | c :: _ => c ≠ '\'')
-
-/-- every `?` of `sql` (scanned from mode `m`) is in code position, there are exactly as many
-values as placeholders, the values are well formed and none of them merges with its neighbours -/
-def bindSafe : Mode → Str → List PVal → Bool
-  | _, [], vs => vs.isEmpty
-  | m, c :: cs, vs =>
-    if c = '?' then
-      match vs with
-      | [] => false
-      | v :: vs' =>
-        codeMode m && v.wf && headOk m v && tailOk v (substitute cs vs') && bindSafe .norm cs vs'
-    else
-      match stepMode false m c with
-      | .ok (_, m') => bindSafe m' cs vs
-      | .error _ => true
 
 /-! ### The cursor's statement cache.  `σ` is the parsed statement type, `parse` the parser. -/
 
@@ -724,18 +714,20 @@ def prepareBoundKey {σ : Type} (parse : Str → Option σ) (cur : Cursor σ) (s
 /-- schema-changing statements clear the cache -/
 def clear {σ : Type} (_ : Cursor σ) : Cursor σ := { cache := [] }
 
-/-- `py_to_sqlvalue`'s classification of a Python value (bool is tried after int, and a Python
-bool *is* an int, so it binds as 1 / 0) -/
+/-- `py_to_sqlvalue`'s classification of a Python value: bool is tested first (a Python bool is
+also an int), NaN and the infinities are refused -/
 inductive PyVal where
-  | none | bool (b : Bool) | int (neg : Bool) (digits : Str) | float (v : PVal) | str (s : Str)
+  | none | bool (b : Bool) | int (neg : Bool) (digits : Str)
+  | float (neg : Bool) (body : Str) | nonFinite | str (s : Str)
   deriving DecidableEq, Repr
 
-def pyToSql : PyVal → PVal
-  | .none => .null
-  | .bool b => .num false (if b then ['1'] else ['0'])
-  | .int neg ds => .num neg ds
-  | .float v => v
-  | .str s => .str s
+def pyToSql : PyVal → Option PVal
+  | .none => some .null
+  | .bool b => some (.bool b)
+  | .int neg ds => some (.num neg ds)
+  | .float neg body => some (.num neg body)
+  | .nonFinite => Option.none
+  | .str s => some (.str s)
 
 end Bind
 
